@@ -154,6 +154,34 @@ Proof.
 Qed.
 Print Assumptions T06f_sorter_output_canonical.
 
+(* the memory limit and the sort routine are not observable: two sorters given the same adds
+   with ANY two max_memory settings (so: any two chunkings, spilled or not) and ANY two
+   key-sorting routines, their chunk readers collected in any order, deliver the same entries *)
+Theorem T06f_memory_limit_irrelevant :
+  forall (f : bytes -> bytes -> bytes -> bytes) (sort sort' : list entry -> list entry),
+  (forall k a b c, f k (f k a b) c = f k a (f k b c)) -> (forall k a b, f k a b = f k b a) ->
+  (forall l, Permutation (sort l) l) -> (forall l, keys_le (sort l)) ->
+  (forall l, Permutation (sort' l) l) -> (forall l, keys_le (sort' l)) ->
+  forall max_memory max_memory' ops,
+  exists s t, adds f sort (sorter_init max_memory) ops = Ok s /\ adds f sort' (sorter_init max_memory') ops = Ok t /\
+  exists s1 t1, final_flush (Some (mf f)) sort s = Ok (s1, true) /\ final_flush (Some (mf f)) sort' t = Ok (t1, true) /\
+    forall cs ct, Permutation cs (so_chunks s1) -> Permutation ct (so_chunks t1) ->
+    exists s' t' it it',
+      sorter_iter (Some (mf f)) sort (with_chunks s1 cs) = Ok (s', Some it) /\
+      sorter_iter (Some (mf f)) sort' (with_chunks t1 ct) = Ok (t', Some it') /\
+      forall n, (length ops <= n)%nat -> mdrain (mf f) (S n) it = mdrain (mf f) (S n) it'.
+Proof.
+  intros f sort sort' Ha Hc Hp Hs Hp' Hs' m m' ops.
+  destruct (T06f_sorter_output_canonical f sort Ha Hc Hp Hs m ops) as (s & Hadds & s1 & Hfl & Hcs).
+  destruct (T06f_sorter_output_canonical f sort' Ha Hc Hp' Hs' m' ops) as (t & Hadds' & t1 & Hfl' & Hct).
+  exists s, t. split; [exact Hadds|]. split; [exact Hadds'|]. exists s1, t1. split; [exact Hfl|]. split; [exact Hfl'|].
+  intros cs ct Pcs Pct.
+  destruct (Hcs cs Pcs) as (s' & it & Hit & Hout). destruct (Hct ct Pct) as (t' & it' & Hit' & Hout').
+  exists s', t', it, it'. split; [exact Hit|]. split; [exact Hit'|].
+  intros n Hn. rewrite (Hout n Hn), (Hout' n Hn). reflexivity.
+Qed.
+Print Assumptions T06f_memory_limit_irrelevant.
+
 (* the canonical output spelled out *)
 Lemma canonical_unfold f ops :
   canonical f ops = map (fun k => (k, match vals k ops with [] => [] | v :: vs => fold_left (f k) vs v end)) (all_keys [ops]).
